@@ -30,3 +30,13 @@ func (tm *Manager) VerifTasks() []VerifTaskInfo {
 	}
 	return res
 }
+
+// VerifIdle reports whether no generation holds the run lock,
+// that is: a later Run or Restart would not block.
+func (tm *Manager) VerifIdle() bool {
+	if tm.running.TryLock() {
+		tm.running.Unlock()
+		return true
+	}
+	return false
+}
